@@ -48,8 +48,15 @@ func disasmChunk(arch enc.Arch, words [][]byte) [][]*enc.AsmLine {
 		crashed++
 		return make([][]*enc.AsmLine, 1)
 	}
-	h := len(words) / 2
-	return append(disasmChunk(arch, words[:h]), disasmChunk(arch, words[h:])...)
+	parts := 8
+	if len(words) < parts {
+		parts = len(words)
+	}
+	var out [][]*enc.AsmLine
+	for p := 0; p < parts; p++ {
+		out = append(out, disasmChunk(arch, words[p*len(words)/parts:(p+1)*len(words)/parts])...)
+	}
+	return out
 }
 
 var crashed int
@@ -239,12 +246,14 @@ func probes(a enc.Arch, f string, op int) []enc.Desc {
 		out = subsets(a, f, op, "", []any{"sdst", 80}, []optField{o("vdst", 16), o("src0", 256+32, 32), o("src1", 256+48, 48), o("src2", 256+64, 64)})
 	case "DS":
 		out = subsets(a, f, op, "", nil, []optField{o("addr", 16), o("data0", 32), o("data1", 48), o("vdst", 64), o("offset0", 0x12), o("offset1", 0x34)})
+		// GWS/ordered-count opcodes exist only with GDS=1
+		out = append(out, subsets(a, f, op, "", []any{"gds", 1}, []optField{o("addr", 16), o("data0", 32), o("data1", 48), o("vdst", 64), o("offset0", 0x12), o("offset1", 0x34)})...)
 	case "FLAT":
 		for glc := 0; glc < 2; glc++ {
 			if a == enc.GFX803 {
 				out = append(out, subsets(a, f, op, "", []any{"glc", glc}, []optField{o("addr", 16), o("data", 32), o("vdst", 48)})...)
 			} else {
-				out = append(out, subsets(a, f, op, "", []any{"glc", glc, "saddr", 0x7f}, []optField{o("addr", 16), o("data", 32), o("vdst", 48), o("offset", 0x12)})...)
+				out = append(out, subsets(a, f, op, "", []any{"glc", glc}, []optField{o("addr", 16), o("data", 32), o("vdst", 48), o("offset", 0x12)})...)
 			}
 		}
 	case "GLOBAL", "SCRATCH":
@@ -428,7 +437,7 @@ func buildRow(a enc.Arch, f string, op int, pd enc.Desc, al *enc.AsmLine, varian
 	// base: the probe with unused operand fields zeroed
 	r.Base = pd.Clone()
 	for k := range r.Base.F {
-		if k == "literal" || k == "imm" || k == "glc" {
+		if k == "literal" || k == "imm" || k == "glc" || k == "gds" {
 			continue
 		}
 		if !used[k] {
@@ -475,6 +484,9 @@ func deriveTable(a enc.Arch, only string) []*enc.Row {
 		}
 		l := enc.LayoutOf(a, f)
 		for op := 0; op <= int(l.Op.Max()); op++ {
+			if f == "VOP3P" && op >= 64 {
+				continue // MFMA (VOP3P-MAI) has a different layout; not covered
+			}
 			for _, d := range probes(a, f, op) {
 				b, err := d.Encode()
 				if err == nil {
@@ -667,7 +679,6 @@ func validateGroups(a enc.Arch, rows []*enc.Row, path string, verbose bool) {
 	}
 }
 
-
 // allPresentUsed: every non-zero operand field of the probe appears in the row.
 func allPresentUsed(d enc.Desc, r *enc.Row) bool {
 	for k, v := range d.F {
@@ -675,7 +686,7 @@ func allPresentUsed(d enc.Desc, r *enc.Row) bool {
 			continue
 		}
 		switch k {
-		case "literal", "imm", "glc":
+		case "literal", "imm", "glc", "gds":
 			continue
 		case "saddr":
 			if v == 0x7f {
